@@ -258,12 +258,15 @@ class SimFS:
     def __init__(self):
         self.files = {}
         self.bufsize = 8192
+        self.handles = []
+        self.leaked_closed = 0
         self.reset_op()
         self.fault_counts = {}
 
     def reset_op(self, bufsize=None, read_fault=None, write_fault=None,
                  short_seed=None):
         """Arm the faults for the next operation and zero its counters."""
+        self.close_leaked()
         if bufsize is not None:
             self.bufsize = bufsize
         self.read_fault = read_fault
@@ -275,6 +278,20 @@ class SimFS:
         self.bytes_read = 0
         self.bytes_written = 0
         self.op_fired = []
+
+    def close_leaked(self):
+        """Handles the library left open (e.g. GzipFile.__init__ raising
+        after the file was opened) are finalised at the operation boundary -
+        a deterministic stand-in for prompt reference-count finalisation; a
+        garbage-collector-timed late flush would not be replayable."""
+        handles, self.handles = self.handles, []
+        for h in handles:
+            try:
+                if not h.closed:
+                    self.leaked_closed += 1
+                    h.close()
+            except BaseException:       # noqa - flush may fail again
+                pass
 
     def fired(self, kind):
         self.fault_counts[kind] = self.fault_counts.get(kind, 0) + 1
@@ -317,6 +334,7 @@ class SimFS:
         if buffering == 0:
             if not binary:
                 raise ValueError("can't have unbuffered text I/O")
+            self.handles.append(raw)
             return raw
         size = self.bufsize if buffering in (-1, 1) else buffering
         if readable and writable:
@@ -325,6 +343,7 @@ class SimFS:
             buf = io.BufferedWriter(raw, size)
         else:
             buf = io.BufferedReader(raw, size)
+        self.handles.append(buf)
         if binary:
             return buf
         return io.TextIOWrapper(buf, encoding or 'utf-8', errors, newline)
